@@ -63,6 +63,8 @@ enum Task {
     Neg(IntTy),
     Not(Prim),
     Cast(Prim, Prim),
+    /// x as T1 as T2 ... (directly nested casts: every step has to extend / truncate on its own)
+    CastChain(Prim, Vec<Prim>),
     /// bool operators & | ^ == != on bool inputs
     BoolOp(BinOp),
     /// a VarConst / ConstVar task whose literal constant is written without its type suffix (the
@@ -79,6 +81,7 @@ impl Task {
             Task::Neg(t) => format!("neg:{}", t.name()),
             Task::Not(t) => format!("not:{}", t.name()),
             Task::Cast(a, b) => format!("cast:{}->{}", a.name(), b.name()),
+            Task::CastChain(a, bs) => format!("cast-chain:{}->{}", a.name(), bs.iter().map(|b| b.name()).collect::<Vec<_>>().join("->")),
             Task::BoolOp(op) => format!("{}:bool:var-var", op.sym()),
             Task::SuffixFree(t) => format!("{}:suffix-free-literal", t.key()),
         }
@@ -159,6 +162,16 @@ impl Task {
                 vec![*a],
                 *b,
             ),
+            Task::CastChain(a, bs) => (
+                format!(
+                    "pub fn main(x: {}) -> {} {{ x{} }}",
+                    a.name(),
+                    bs.last().unwrap().name(),
+                    bs.iter().map(|b| format!(" as {}", b.name())).collect::<String>()
+                ),
+                vec![*a],
+                *bs.last().unwrap(),
+            ),
             Task::SuffixFree(_) => unreachable!(),
             Task::BoolOp(op) => (
                 format!("pub fn main(x: bool, y: bool) -> bool {{ x {} y }}", op.sym()),
@@ -183,6 +196,16 @@ impl Task {
                 (Prim::Bool, Prim::Int(_)) => (args[0] != 0) as i128,
                 (Prim::Int(f), Prim::Int(t)) => ints::cast(*f, *t, args[0]),
             }),
+            Task::CastChain(a, bs) => {
+                let mut from = *a;
+                let mut v = args[0];
+                for b in bs {
+                    let Arith::Val(w) = Task::Cast(from, *b).expect(&[v]) else { unreachable!() };
+                    v = w;
+                    from = *b;
+                }
+                Arith::Val(v)
+            }
             Task::BoolOp(op) => {
                 let (a, b) = (args[0] != 0, args[1] != 0);
                 Arith::Val(match op {
@@ -590,6 +613,22 @@ fn build_tasks(tier: Tier, rng: &mut Rng) -> Vec<(Task, Vec<Vec<i128>>, bool)> {
             };
             tasks.push((Task::Cast(*a, *b), vals.into_iter().map(|v| vec![v]).collect(), exh));
         }
+    }
+    // cast chains: every triple of types, and sampled longer chains
+    for a in &prims {
+        for b in &prims {
+            for c in &prims {
+                let vals = sample_values(rng, *a, 24);
+                tasks.push((Task::CastChain(*a, vec![*b, *c]), vals.into_iter().map(|v| vec![v]).collect(), false));
+            }
+        }
+    }
+    for _ in 0..if tier == Tier::Thorough { 3000 } else { 300 } {
+        let a = *rng.pick(&prims);
+        let n = 3 + rng.usize_below(3);
+        let bs: Vec<Prim> = (0..n).map(|_| *rng.pick(&prims)).collect();
+        let vals = sample_values(rng, a, 24);
+        tasks.push((Task::CastChain(a, bs), vals.into_iter().map(|v| vec![v]).collect(), false));
     }
     tasks
 }
